@@ -16,7 +16,7 @@ DET=""
 for c in "$@"; do
   out=$(cd /verif && VF_REPO=$W VF_OUT_ROOT=$O bin/check $c --tier quick 2>/dev/null)
   rc=$?
-  cl=$(echo "$out" | grep "^VIOLATION" | sed 's/.*clause=\([^ ]*\).*/\1/' | sort | uniq -c | sort -rn | head -3 | awk '{print $2"("$1")"}' | tr '\n' ',')
+  cl=$(echo "$out" | grep "^VIOLATION" | sed 's/.*clause=\([^ ]*\).*/\1/' | sort | uniq -c | sort -rn | head -6 | awk '{print $2"("$1")"}' | tr '\n' ',')
   DET="$DET $c:rc=$rc:$cl"
 done
 echo "$NAME applies=yes demo_clean=$DC demo_patched=$DP suite=[$SUITE] detected=[$DET]"
